@@ -1,6 +1,6 @@
 #!/bin/bash
 # usage: tools/collect_benign.sh <Cxx> -- confirm (applies, suite at baseline) and store the behaviour-preserving twins of /tmp/wtb/<Cxx>
-p=$1; wt=/tmp/wtb/$p
+p=$1; wt=${WTB:-/tmp/wtb}/$p
 cd $wt || exit 9
 for k in 1 2 3; do
   [ -f benign$k/patch.diff ] || { echo "$p benign$k: missing"; continue; }
@@ -9,7 +9,7 @@ for k in 1 2 3; do
   t=$(/venv/bin/python -m pytest -q -p no:cacheprovider --timeout=900 --continue-on-collection-errors 2>&1 | tail -1)
   git checkout -q -- .
   if echo "$t" | grep -q "468 passed, 25 errors"; then
-    cp benign$k/patch.diff /verif/selftest/benign/$p-b$k.diff; cp benign$k/NOTES.md /verif/selftest/benign/$p-b$k.md 2>/dev/null
+    cp benign$k/patch.diff /verif/selftest/benign/$p-b$((k+${OFF:-0})).diff; cp benign$k/NOTES.md /verif/selftest/benign/$p-b$((k+${OFF:-0})).md 2>/dev/null
     echo "$p benign$k: stored ($t)"
   else echo "$p benign$k: suite differs: $t"; fi
 done
